@@ -51,7 +51,7 @@ spellings of one name, the second coalesced onto the first's resolution; both ge
 example :
     let cs : List Client := [⟨7, ⟨1, 0, 1⟩, 0, .forward⟩, ⟨7, ⟨1, 3, 1⟩, 0, .forward⟩]
     let s := run codeCfg (init cs)
-      [.arrive 0, .join 0, .arrive 1, .join 1, .resolve 0 .udp (.msg ⟨99, some ⟨1, 0, 1⟩, true, 0, false, 5⟩) .fail, .wake 1, .wake 0]
+      [.arrive 0, .join 0, .arrive 1, .join 1, .resolve 0 .udp (.msg ⟨99, some ⟨1, 0, 1⟩, true, 0, false, 5, false⟩) .fail, .wake 1, .wake 0]
     s.outs.length = 2 ∧ s.calls.length = 1 := by decide
 
 /-- The reply a caller of `Handle_` builds when it returned an error (SERVFAIL / TC=1) is made from
@@ -71,7 +71,7 @@ and serves to a second client, the answer to another question (DESIGN §7 item 7
 theorem question_unchecked_witness :
     let cs : List Client := [⟨100, ⟨1, 0, 1⟩, 0, .forward⟩, ⟨101, ⟨1, 0, 1⟩, 0, .forward⟩]
     let s := run { checkQuestion := false } (init cs)
-      [.arrive 0, .join 0, .resolve 0 .udp (.msg ⟨100, some ⟨2, 0, 1⟩, true, 0, false, 6⟩) .fail, .wake 0, .arrive 1]
+      [.arrive 0, .join 0, .resolve 0 .udp (.msg ⟨100, some ⟨2, 0, 1⟩, true, 0, false, 6, false⟩) .fail, .wake 0, .arrive 1]
     (∃ e, (Key.mk 1 1 0, e) ∈ s.cache ∧ e.q.name = 2) ∧
     (∃ r, (1, Outcome.wrote r) ∈ s.outs ∧ r.q = some ⟨2, 0, 1⟩) := by
   refine ⟨⟨⟨⟨2, 0, 1⟩, 6⟩, by decide, rfl⟩, ⟨⟨101, some ⟨2, 0, 1⟩, 0, false, 6, .cache⟩, by decide, rfl⟩⟩
@@ -111,7 +111,7 @@ becomes the leader of a flight that needs no upstream exchange. -/
 example :
     let cs : List Client := [⟨7, ⟨1, 0, 1⟩, 0, .forward⟩, ⟨8, ⟨1, 2, 1⟩, 0, .forward⟩]
     let s := run codeCfg (init cs)
-      [.arrive 0, .arrive 1, .join 0, .resolve 0 .udp (.msg ⟨7, some ⟨1, 0, 1⟩, true, 0, false, 5⟩) .fail, .join 1, .wake 1, .wake 0]
+      [.arrive 0, .arrive 1, .join 0, .resolve 0 .udp (.msg ⟨7, some ⟨1, 0, 1⟩, true, 0, false, 5, false⟩) .fail, .join 1, .wake 1, .wake 0]
     s.calls.length = 1 ∧ s.flights.length = 2 ∧ s.outs.length = 2 := by decide
 
 /-- **… whose result reaches every waiter, once.** A client blocked in `sf.Do` on a finished flight
